@@ -8,3 +8,20 @@ package tls
 func VerifFingerprintMarshal(c *ClientFingerprintConfiguration, config *Config) ([]byte, error) {
 	return c.marshal(config)
 }
+
+// VerifFingerprintTables returns the tables the fingerprint encoder checks a
+// configuration against: implemented cipher suites, default curve preferences
+// (SupportedCurvesExtension), supported (hash<<8|signature) pairs
+// (SignatureAlgorithmExtension).
+func VerifFingerprintTables() (suites, curves, sigAlgs []uint16) {
+	for _, s := range implementedCipherSuites {
+		suites = append(suites, s.id)
+	}
+	for _, c := range defaultCurvePreferences {
+		curves = append(curves, uint16(c))
+	}
+	for _, a := range supportedSKXSignatureAlgorithms {
+		sigAlgs = append(sigAlgs, uint16(a.Hash)<<8|uint16(a.Signature))
+	}
+	return
+}
